@@ -3,6 +3,7 @@
 mod c01;
 mod c03;
 mod c07;
+mod c10;
 mod core;
 mod c17;
 mod c20;
@@ -17,6 +18,11 @@ mod c26;
 mod c12;
 mod c13;
 mod c24;
+mod c28;
+mod c05;
+mod c08;
+mod c14;
+mod c09;
 mod lean;
 mod report;
 mod rng;
@@ -72,6 +78,7 @@ fn main() {
                 "C20" => c20::replay(&f["input"]),
                 "C03" => c03::replay(&f["input"]),
                 "C07" => c07::replay(&f["input"]),
+                "C10" => c10::replay(&f["input"]),
                 "C01" => c01::replay(&f["input"]),
                 "C27" => c27::replay(&f["input"]),
                 "C22" => c22::replay(&f["input"]),
@@ -80,6 +87,11 @@ fn main() {
                 "C12" => c12::replay(&f["input"]),
                 "C13" => c13::replay(&f["input"]),
                 "C24" => c24::replay(&f["input"]),
+                "C28" => c28::replay(&f["input"]),
+                "C05" => c05::replay(&f["input"]),
+                "C08" => c08::replay(&f["input"]),
+                "C14" => c14::replay(&f["input"]),
+                "C09" => c09::replay(&f["input"]),
                 _ => "replay not implemented for this property".to_string(),
             };
             println!("input: {}\n{}", f["input"], out);
@@ -108,6 +120,7 @@ fn main() {
         "C20" => c20::run(&tier, seed, widen),
         "C03" => c03::run(&tier, seed, widen),
         "C07" => c07::run(&tier, seed, widen),
+        "C10" => c10::run(&tier, seed, widen),
         "C01" => c01::run(&tier, seed, widen),
         "C27" => c27::run(&tier, seed, widen),
         "C22" => c22::run(&tier, seed, widen),
@@ -116,6 +129,11 @@ fn main() {
         "C12" => c12::run(&tier, seed, widen),
         "C13" => c13::run(&tier, seed, widen),
         "C24" => c24::run(&tier, seed, widen),
+        "C28" => c28::run(&tier, seed, widen),
+        "C05" => c05::run(&tier, seed, widen),
+        "C08" => c08::run(&tier, seed, widen),
+        "C14" => c14::run(&tier, seed, widen),
+        "C09" => c09::run(&tier, seed, widen),
         _ => {
             eprintln!("unknown property {prop}");
             std::process::exit(2);
